@@ -14,6 +14,7 @@ import (
 	"fmt"
 	"hash/crc32"
 	"io"
+	"os"
 
 	"github.com/golang/snappy"
 )
@@ -263,12 +264,13 @@ var errInjected = errors.New("injected write failure")
 // accept -2: the same but the fault is transient (later writes succeed);
 // accept -3: nothing taken, transient.
 type recWriter struct {
-	calls  [][]byte
-	failAt int
-	accept int
-	failed bool
-	out    []byte
-	temp   bool // the injected error says Temporary() / Timeout() (net.Error style)
+	calls      [][]byte
+	failAt     int
+	accept     int
+	failed     bool
+	out        []byte
+	temp       bool // the injected error says Temporary() / Timeout() (net.Error style)
+	closedKind bool // the injected error is an os.ErrClosed / io.ErrClosedPipe
 }
 
 // errInjectedTemp is the injected failure dressed as a temporary network error.
@@ -279,7 +281,18 @@ func (errInjectedTemp) Temporary() bool      { return true }
 func (errInjectedTemp) Timeout() bool        { return true }
 func (errInjectedTemp) Is(target error) bool { return target == errInjected }
 
+// errInjectedClosed is the injected failure as it looks when the destination has been closed
+type errInjectedClosed struct{}
+
+func (errInjectedClosed) Error() string { return "injected write failure: " + os.ErrClosed.Error() }
+func (errInjectedClosed) Is(target error) bool {
+	return target == errInjected || target == os.ErrClosed || target == io.ErrClosedPipe
+}
+
 func (w *recWriter) fault() error {
+	if w.closedKind {
+		return errInjectedClosed{}
+	}
 	if w.temp {
 		return errInjectedTemp{}
 	}
@@ -300,7 +313,7 @@ func (w recByteWriter) WriteString(s string) (int, error) { return w.recWriter.W
 // faultWriter returns the recording writer and the io.Writer to hand to the library. mode bit 0: also an
 // io.ByteWriter / io.StringWriter; bit 1: the error is a temporary one.
 func faultWriter(failAt, accept, mode int) (*recWriter, io.Writer) {
-	w := &recWriter{failAt: failAt, accept: accept, temp: mode&2 != 0}
+	w := &recWriter{failAt: failAt, accept: accept, temp: mode&2 != 0, closedKind: mode&4 != 0}
 	if mode&1 != 0 {
 		return w, recByteWriter{w}
 	}
